@@ -210,7 +210,7 @@ func (g *Gen) MostlyGoodOutcome() SOutSpec {
 	var certs []int
 	var comments []string
 	for i := 0; i < n; i++ {
-		certs = append(certs, core.Pick(g.R, CertGood, CertGood, CertGood, CertGood, CertPlain, CertDup))
+		certs = append(certs, core.Pick(g.R, CertGood, CertGood, CertGood, CertGood, CertPlain, CertDup, CertFuture, CertNoExpiry, CertExpired, CertForever))
 		comments = append(comments, core.Pick(g.R, "", "c", "label"))
 	}
 	return SOutSpec{Kind: SigOk, Certs: certs, Comments: comments}
@@ -528,6 +528,18 @@ func (g *Gen) DriveC03() {
 		runs := []RunSpec{g.honestRun(logname, user, h, []SOutSpec{{Kind: SigOk, Certs: []int{CertGood, CertGood}, Comments: []string{"a", ""}}}),
 			g.honestRun(logname, user, h, OneCert())}
 		g.Emit("nearmiss/two-generations", SessionSpec{Dir: g.DirFor(logname, 1, user, user), Store0: st, Runs: runs})
+	}
+	// certificates whose validity window does not contain this host's clock are still what the CA returned
+	for _, w := range []struct {
+		name string
+		kind int
+	}{{"valid-from-the-future", CertFuture}, {"no-expiry", CertNoExpiry}, {"already-expired", CertExpired}, {"valid-forever", CertForever}} {
+		logname, user := "alice", users[0]
+		h := []HandlerSpec{g.Regular(u64(3600), FullKeyIDs())}
+		runs := []RunSpec{g.honestRun(logname, user, h, OneCert()),
+			g.honestRun(logname, user, h, []SOutSpec{{Kind: SigOk, Certs: []int{w.kind, CertGood, w.kind}, Comments: []string{"a", "", "b"}}}),
+			g.honestRun(logname, user, h, []SOutSpec{{Kind: SigOk, Certs: []int{w.kind}}})}
+		g.Emit("certificate-window/"+w.name, SessionSpec{Dir: g.DirFor(logname, 1, user, user), Store0: g.Store0(2), Runs: runs})
 	}
 	for i := 0; i < c.N(110, 3000); i++ {
 		logname := LogNames[g.R.Intn(len(LogNames))]
